@@ -196,7 +196,7 @@ def run_historical_repeat(spec, stats):
             msgs.append("ok")
         except Exception as e:  # noqa: BLE001
             d = f"exc:{type(e).__qualname__}"
-            import traceback as _tb; msgs.append(f"{type(e).__qualname__}: {e} :: " + _tb.format_exc()[-600:])
+            msgs.append(f"{type(e).__qualname__}: {e}")
         else:
             d = tables_digest(est) + _digest_eval(res[hid]["evaluation"])
         digs.append(d)
@@ -207,7 +207,8 @@ def run_historical_repeat(spec, stats):
         stats.probes["historical_client_ok"] += 1
     else:
         stats.repo_errors[msgs[0].split(":")[0]] += 1
-        stats.extra["exc(historical): " + msgs[0][:300]] += 1
+        import re as _re
+        stats.extra["exc(historical): " + _re.sub(r"[0-9]+", "N", msgs[0])[:120]] += 1
     out = []
     if digs[0] != digs[1]:
         out.append(Violation(PROP, "not_deterministic", f"HistoricalModelClient, equal arguments twice in one process: {msgs}", dict(estimator=p["pi_method"], history="historical_client")))
